@@ -89,7 +89,7 @@ def install(reg):
     reg.add(Contract(
         "biobalm.petri_net_translation.restrict_petrinet_to_subspace",
         params=[("petri_net", P.TPNG), ("sub_space", TSpace)], result_type=P.TPNG,
-        properties=("C10", "C16"),
+        properties=("C10", "C16", "C19"),
         requires=[lambda c: bipartite(c.petri_net)],
         ensures=[("node_and_edge_sets_characterised", post)],
         ann_types={"set[str]": SN},
